@@ -75,6 +75,22 @@ class Bench:
                 if s != "":
                     t.cell(i, j).text = s
 
+    @staticmethod
+    def make_variant(gf, var: int):
+        """Document variants (MC_Table.VARS): the same table as another producer may have written it (lxml edits only)."""
+        tbl = next(gf._element.iter("{%s}tbl" % A))
+        if var == 1:
+            for el in tbl.findall("{%s}tblPr" % A):
+                tbl.remove(el)
+        elif var == 2:
+            for tc in tbl.iter(_TC):
+                for el in tc.findall("{%s}tcPr" % A):
+                    tc.remove(el)
+        elif var == 3:
+            ext = '<a:extLst xmlns:a="%s"><a:ext uri="{9D8B030D-6E8A-4147-A177-3AD203B41FA5}"/></a:extLst>' % A
+            for el in list(tbl.iter(_TR, _TC, _GC)):
+                el.append(etree.fromstring(ext))
+
     def apply(self, gf, a: dict) -> str:
         t = gf.table
         try:
@@ -137,6 +153,8 @@ def run_group(gid: str, h: list[dict], sizeacts: bool, fanout: bool = True, xsd:
     gf = b.create(h[0])
     created = project(gf)
     b.set_texts(gf, h[0]["txt"])
+    if h[0].get("var"):
+        b.make_variant(gf, h[0]["var"])
     path = [{"a": h[0], "out": "ok", "t": project(gf), "x": mon()}]
     for a in h[1:]:
         out = b.apply(gf, a)
